@@ -213,43 +213,49 @@ def parseValues (a : Acl) (vals : List Bytes) : Step Acl :=
     else .ok { a with methods := a.methods ++ vals.map parseMethod }
   | .other => .unmodelled
 
-/-- `acl` directive: Acl::Node::ParseNamedAcl + ParseNamed -/
+/-- Acl::Node::ParseNamed for the (already case-folded) name -/
+def parseAclNamed (c : Conf) (name ty : Bytes) (rest : List Bytes) : Step Conf :=
+  match findAcl c.acls name with
+  | none =>
+    match aclTypeOf ty with
+    | none => .unmodelled          -- other ACL types (and unknown ones: FATAL "Invalid ACL type")
+    | some t =>
+      match parseFlags t rest false with
+      | none => .unmodelled
+      | some (ban, vals) =>
+        match parseValues { name := name, type := t, noLookup := ban } vals with
+        | .ok a => .ok { c with acls := c.acls ++ [a] }      -- (an empty new ACL only earns a WARNING)
+        | .reject r => .reject r
+        | .unmodelled => .unmodelled
+  | some a =>
+    match aclTypeOf ty with
+    | none => .unmodelled
+    | some t =>
+      if t ≠ a.type then .reject .aclTypeMismatch           -- strcmp(A->typeString(), theType)
+      else
+        match parseFlags t rest a.noLookup with
+        | none => .unmodelled
+        | some (ban, vals) =>
+          match parseValues { a with noLookup := ban } vals with
+          | .ok a' => .ok { c with acls := replaceAcl c.acls a' }
+          | .reject r => .reject r
+          | .unmodelled => .unmodelled
+
+/-- `acl` directive: Acl::Node::ParseNamedAcl + ParseNamed.  `Config.namedAcls` compares names without regard to case
+(`CaseInsensitiveSBufHash/Equal`): modelled by storing and looking up the lower-cased name. -/
 def parseAclLine (c : Conf) (toks : List Bytes) : Step Conf :=
   match toks with
   | [] => .reject .aclNoName
   | [_] => .reject .aclNoType
-  | name :: ty :: rest =>
-    match findAcl c.acls name with
-    | none =>
-      match aclTypeOf ty with
-      | none => .unmodelled          -- other ACL types (and unknown ones: FATAL "Invalid ACL type")
-      | some t =>
-        match parseFlags t rest false with
-        | none => .unmodelled
-        | some (ban, vals) =>
-          match parseValues { name := name, type := t, noLookup := ban } vals with
-          | .ok a => .ok { c with acls := c.acls ++ [a] }      -- (an empty new ACL only earns a WARNING)
-          | .reject r => .reject r
-          | .unmodelled => .unmodelled
-    | some a =>
-      match aclTypeOf ty with
-      | none => .unmodelled
-      | some t =>
-        if t ≠ a.type then .reject .aclTypeMismatch           -- strcmp(A->typeString(), theType)
-        else
-          match parseFlags t rest a.noLookup with
-          | none => .unmodelled
-          | some (ban, vals) =>
-            match parseValues { a with noLookup := ban } vals with
-            | .ok a' => .ok { c with acls := replaceAcl c.acls a' }
-            | .reject r => .reject r
-            | .unmodelled => .unmodelled
+  | name :: ty :: rest => parseAclNamed c (Domain.fold name) ty rest
 
-/-- `const bool negated = (*t == '!'); if (negated) ++t;` -/
+/-- `const bool negated = (*t == '!'); if (negated) ++t;` — and the name as `Config.namedAcls` keys it: the table
+compares names without regard to case (`CaseInsensitiveSBufHash/Equal`), modelled by storing and looking up the
+lower-cased name -/
 def litOf (t : Bytes) : Bool × Bytes :=
   match t with
-  | 33 :: r => (true, r)
-  | _ => (false, t)
+  | 33 :: r => (true, Domain.fold r)
+  | _ => (false, Domain.fold t)
 
 /-- Acl::InnerNode::lineParse: `[!]aclname ...`, every name must already be defined -/
 def lineParse (acls : List Acl) : List Bytes → Step (List (Bool × Bytes))
@@ -302,7 +308,7 @@ def builtinLine (c : Conf) (line : Bytes) : Conf :=
   | .ok c' => c'
   | _ =>
     match tokens line with
-    | _ :: name :: _ => { c with acls := c.acls ++ [{ name := name, type := .other }] }
+    | _ :: name :: _ => { c with acls := c.acls ++ [{ name := Domain.fold name, type := .other }] }
     | _ => c
 
 def builtins : Conf := Gen.HttpAccessCfg.defaultAclLines.foldl builtinLine {}
